@@ -40,6 +40,7 @@ func symbols(metric string) *sl.Symbols {
 		sl.Op{Name: "upd1(remove vector)", Kind: "upd", Ids: []int{1}, Docs: []sl.Doc{{prop: "_delete"}}},
 		sl.Op{Name: "upd1,1(move then remove vector)", Kind: "upd", Ids: []int{1, 1}, Docs: []sl.Doc{{prop: st[5]}, {prop: "_delete"}}},
 		sl.Op{Name: "upd1,5(add vector)", Kind: "upd", Ids: []int{1, 5}, Docs: []sl.Doc{{prop: st[0]}, {prop: st[3]}}},
+		sl.Op{Name: "queries", Kind: "queries"},
 		sl.Op{Name: "del1", Kind: "del", Ids: []int{1}},
 		sl.Op{Name: "del2,3", Kind: "del", Ids: []int{2, 3}},
 		sl.Op{Name: "ins1(again, elsewhere)", Kind: "ins", Ids: []int{1}, Docs: []sl.Doc{d(6)}},
@@ -158,7 +159,7 @@ type quant struct {
 }
 
 func master(cfg *harness.Config, rep *harness.Report) {
-	rep.Rule = "all write histories up to the depth (insert 1-3 vectors incl. duplicates and vectorless points, move, remove/add the field, the same point twice in one update batch, delete, re-insert with node-id reuse), from the empty shard and from 30 lattice points, x metric {euclidean, dot, cosine, haversine, hamming} x quantiser {none, binary fixed, binary learned(trigger 3), product (2x2, trigger 3)}; after every batch 4 queries x limit {1,3,75} x searchSize {25,75} x weight {nil,0.5,-1,0} x pre-filter {none, empty, one point, all, mixed live/vectorless/absent ids, string filter}, plus limit = searchSize = 25 with filters of 24 / 25 / 26 members over the 30-point start state, plus an index built with searchSize 25 / degreeBound 32 holding 225 points and queried with searchSize 75 and a 60-member filter whose nearest members lie outside the unfiltered window: only live in-filter points with the field, no duplicate, never the entry node, <= limit, sorted, distance = index distance, hybrid = -weight*distance; exact k-NN for insert-only histories with <= min(degreeBound, searchSize-1) vectors and for filters with <= searchSize members. Histories are not merged (the warm graph cache is state outside the buckets)"
+	rep.Rule = "all write histories up to the depth (insert 1-3 vectors incl. duplicates and vectorless points, move, remove/add the field, the same point twice in one update batch, a round of searches between two batches, delete, re-insert with node-id reuse), from the empty shard and from 30 lattice points, x metric {euclidean, dot, cosine, haversine, hamming} x quantiser {none, binary fixed, binary learned(trigger 3), product (2x2, trigger 3)}; after every batch 4 queries x limit {1,3,75} x searchSize {25,75} x weight {nil,0.5,-1,0} x pre-filter {none, empty, one point, all, mixed live/vectorless/absent ids, string filter}, plus limit = searchSize = 25 with filters of 24 / 25 / 26 members over the 30-point start state, plus an index built with searchSize 25 / degreeBound 32 holding 225 points and queried with searchSize 75 and a 60-member filter whose nearest members lie outside the unfiltered window: only live in-filter points with the field, no duplicate, never the entry node, <= limit, sorted, distance = index distance, hybrid = -weight*distance; exact k-NN for insert-only histories with <= min(degreeBound, searchSize-1) vectors and for filters with <= searchSize members. Histories are not merged (the warm graph cache is state outside the buckets)"
 	rep.Assumptions = []string{"the entry vector is random (math/rand/v2): oracles are independent of graph shape", "product quantiser with trigger threshold 3 (HTTP minimum 1000), 2 sub-vectors x 2 centroids; centroids and centroid ids read back from the bucket and checked for consistency", "runtime.NumCPU()-1 = 1 insert worker (CPU affinity 2)"}
 	p := pool.New(pool.Options{CPUsPerWorker: 2, JobTimeout: 60 * time.Second})
 	if cfg.Replay != "" {
@@ -185,7 +186,7 @@ func master(cfg *harness.Config, rep *harness.Report) {
 		depth = 4
 		combos = append(combos, combo{models.DistanceEuclidean, learned}, combo{models.DistanceCosine, none}, combo{models.DistanceDot, none}, combo{models.DistanceJaccard, none}, combo{models.DistanceEuclidean, fixed}, combo{models.DistanceDot, product}, combo{models.DistanceCosine, product})
 	}
-	alpha := []string{"ins1", "ins2,3", "ins4,5,6(5 without vector)", "ins7(dup of 1)", "upd1(move)", "upd2,3(move both)", "upd1(remove vector)", "upd1,1(move then remove vector)", "upd1,5(add vector)", "del1", "del2,3", "ins1(again, elsewhere)"}
+	alpha := []string{"ins1", "ins2,3", "ins4,5,6(5 without vector)", "ins7(dup of 1)", "upd1(move)", "upd2,3(move both)", "upd1(remove vector)", "upd1,1(move then remove vector)", "upd1,5(add vector)", "queries", "del1", "del2,3", "ins1(again, elsewhere)"}
 	var specs []seqx.Spec
 	for _, c := range combos {
 		schema := models.IndexSchema{
